@@ -33,7 +33,12 @@
 //	          read-only (with a complete nested enumeration), editing (only the state
 //	          afterwards is compared, not what the enumeration reported), panicking.
 //
-// (windows, big, reentrant: engines2.go)
+//	steps     Iter walked by Next alone, Value asked never / at some steps / at the last
+//	          member only / after gaps of two or more steps.
+//	chains    Clone of the result of a Clone (and several clones of one object); every
+//	          member of the chain edited, all members re-observed after every step.
+//
+// (windows, big, reentrant: engines2.go; steps, chains: engines3.go)
 package main
 
 import (
@@ -452,10 +457,11 @@ func lockstepCase(c *ev.Case) {
 
 func main() {
 	r := ev.New("C16")
-	r.Rule("one case = a seeded sequence of Add/Remove/Contains/Grow/Cap/Clone/Diff/Intersect/Merge over setz.Bits, setz.Bitmap and dsz.Bits objects, each with its own Go-map model (lockstep: random sequences; pairs: one pair of subsets of the word-boundary values per case index, enumerated completely; words: operands of 0..6 words from bit patterns, every receiver/operand word count combination; iter: enumeration workloads; windows: 2-12 operations without any observing call, then all observers in a drawn order; big: sets of 15-65537 words around powers of two; reentrant: enumerations whose receiving code reads, edits or panics). distinct = distinct hash of the operation sequence / operand contents; non-trivial = at least one bulk operation (iter engine: at least one member) with all of Len, Contains sweep, Iter, Range, All compared afterwards")
+	r.Rule("one case = a seeded sequence of Add/Remove/Contains/Grow/Cap/Clone/Diff/Intersect/Merge over setz.Bits, setz.Bitmap and dsz.Bits objects, each with its own Go-map model (lockstep: random sequences; pairs: one pair of subsets of the word-boundary values per case index, enumerated completely; words: operands of 0..6 words from bit patterns, every receiver/operand word count combination; iter: enumeration workloads; windows: 2-12 operations without any observing call, then all observers in a drawn order; big: sets of 15-65537 words around powers of two; reentrant: enumerations whose receiving code reads, edits or panics; steps: Iter walked by Next with Value asked at none / some of the steps; chains: clones of clones, every member edited). distinct = distinct hash of the operation sequence / operand contents; non-trivial = at least one bulk operation (iter engine: at least one member) with all of Len, Contains sweep, Iter, Range, All compared afterwards")
 	r.Assume("the set model (Go map + sort) is the specification; values stay below ~1200 for Add/Grow except in the big engine (larger values only for Contains/Remove, which must not allocate); word counts are read through Cap() for coverage counters only; nothing is asserted about the value of Cap()")
 	r.Assume("what an enumeration reports after its own receiving code has edited the set is not looked at (the statement does not settle it); the element operations made from there and the state of the object afterwards are compared as usual; big engine: values up to 2^22+2^17, Contains compared at members, neighbours, word/capacity edges, powers of two and random values when a set has more than 2100 words")
 	r.Assume("Range's callback returning false stops the enumeration (the only meaning its bool result has); All obeys the iter.Seq protocol")
+	r.Assume("an iterator is walked by Next; Value is a pure query of the current position and may be called any number of times, or not at all, between two Next calls; whether a panic raised by the receiving code of Range / All reaches the caller is not judged (only the values delivered before it and the state of the object afterwards)")
 	r.Cases("lockstep", r.N(50000, 1500000), ev.Opt{HangViolation: true}, lockstepCase)
 	r.Cases("pairs", pairsCount(r), ev.Opt{HangViolation: true}, pairsCase)
 	r.Cases("words", r.N(14700, 735000), ev.Opt{HangViolation: true}, wordsCase)
@@ -463,6 +469,8 @@ func main() {
 	r.Cases("windows", r.N(20000, 200000), ev.Opt{HangViolation: true}, windowsCase)
 	r.Cases("big", r.N(1600, 16000), ev.Opt{HangViolation: true}, bigCase)
 	r.Cases("reentrant", r.N(20000, 200000), ev.Opt{HangViolation: true}, reentrantCase)
+	r.Cases("steps", r.N(7000, 140000), ev.Opt{HangViolation: true}, stepsCase)
+	r.Cases("chains", r.N(8000, 160000), ev.Opt{HangViolation: true}, chainsCase)
 
 	// observation floors (quick-tier counts are 4-10x higher at every seed tried)
 	for _, op := range opCtx {
@@ -472,6 +480,36 @@ func main() {
 		r.Require("bulk_"+op+"_operand_self", 8000)
 		r.Require("bulk_"+op+"_receiver_members_beyond_operand", 12000)
 		r.Require("bulk_"+op+"_operand_members_beyond_receiver", 12000)
+	}
+	// audit floors: every method of the statement really called on every type that has it
+	callFloor := map[string]int64{"Add": 1500000, "Remove": 200000, "Contains": 2500000, "Len": 3000000, "Cap": 2500000,
+		"Grow": 50000, "Iter": 1200000, "Range": 900000, "All": 2500000, "Clone": 20000, "Diff": 70000, "Intersect": 70000, "Merge": 70000}
+	for k := kBits; k <= kDsz; k++ {
+		for _, m := range methodsOf[k] {
+			r.Require(callKeys[m][k], callFloor[m])
+		}
+		r.Require("iter_walks_by_next_of_nonempty_sets_"+kindName[k], 10000)
+	}
+	for _, op := range opCtx {
+		r.Require("bulk_"+op+"_receiver_without_words", 5000)
+		r.Require("bulk_"+op+"_operand_without_words", 5000)
+	}
+	for k, v := range map[string]int64{
+		"add_new_within_capacity": 3000000, "remove_absent_within_capacity": 200000,
+		"clones_of_Bits": 20000, "clones_of_Bitmap": 25000, "clones_of_a_clone": 5000,
+		"early_stops_All_Bits": 50000, "early_stops_Range_Bits": 50000, "early_stops_Range_Bitmap": 70000,
+		"membership_changed_by_element_operation_right_after_bulk_operation_Bits":   100000,
+		"membership_changed_by_element_operation_right_after_bulk_operation_Bitmap": 100000,
+		"merge_receiver_edited_in_words_taken_from_operand":                         10000,
+		"merge_operand_edited_in_words_given_to_receiver":                           15000,
+		// steps
+		"steps_cases": 6500, "iter_walks_value_never_asked": 15000, "iter_walks_value_asked_at_some_steps_only": 20000,
+		"iter_steps_without_value": 900000, "iter_values_asked_after_two_or_more_steps_without": 100000,
+		// chains
+		"chains_cases": 7500, "chains_cases_with_a_clone_of_a_clone": 5000,
+		"chain_edits_with_a_clone_of_a_clone_alive": 12000, "chain_bulk_operations_between_members": 3500,
+	} {
+		r.Require(k, v)
 	}
 	for k, v := range map[string]int64{
 		"bulk_ops": 300000, "bulk_Bits": 150000, "bulk_Bitmap": 150000,
